@@ -591,3 +591,6 @@ def rule_step(ctx, R):
 
 RULES.append(("C11.SHOWSTATE", "`state` prints the selected stack and every stack in the order of their numbers, each with its own contents", rule_showstate))
 RULES.append(("C11.STEP", "the command a step executes is the language's command: six arms of execute_one equal the language table (shared with C01.ARM)", rule_step))
+
+
+RULES.append(("C11.JUMP", "a step follows the language's jump rules: area evaluation, label lookup/registration and ♡ return of execute_one (shared with C01.JUMP)", p_c01.rule_area_jump))
